@@ -455,10 +455,20 @@ static void next_lookup(struct host_query *hquery, ares_status_t status)
       break;
 
     case 'f':
-      /* Host file lookup */
-      if (file_lookup(hquery) == ARES_SUCCESS) {
-        end_hquery(hquery, ARES_SUCCESS);
-        break;
+      {
+        /* Host file lookup */
+        ares_status_t fstatus = file_lookup(hquery);
+        if (fstatus == ARES_SUCCESS) {
+          end_hquery(hquery, ARES_SUCCESS);
+          break;
+        }
+        /* Running out of memory while consulting the hosts file is not the
+         * same as the name not being listed there, don't go on and answer
+         * from a lower-priority source instead. */
+        if (fstatus == ARES_ENOMEM) {
+          end_hquery(hquery, ARES_ENOMEM);
+          break;
+        }
       }
       hquery->remaining_lookups++;
       next_lookup(hquery, status);
